@@ -266,28 +266,33 @@ pub fn c18(cfg: &Cfg) -> i32 {
     }
 
     // ---- observer 3b: Miri (schedule exploration with weak-memory emulation, leak check) ----
+    // two root kinds: setup + a few turns (seeds 0..n) and the scripted third-repetition root at step 3 (seeds 0..n/2)
     {
-        let seeds = cfg.n(8, 64);
-        let mut c = Command::new("cargo");
-        c.args(["+nightly", "miri", "run", "--offline", "--", "1", "3", "1", &cfg.seed.to_string(), "2", "40", "1"]).current_dir(vd.join("sanit")).env("MIRIFLAGS", format!("-Zmiri-many-seeds=0..{}", seeds)).env("CARGO_TARGET_DIR", target.join("sanit-miri")).env("CARGO_NET_OFFLINE", "true").env("CARGO_TERM_COLOR", "never").env_remove("RUSTFLAGS");
-        let (code, so, se) = run_cmd(c);
-        let done = so.lines().filter(|l| l.starts_with("c18bare ")).count() as u64;
-        sink.add("miri_seeds_completed", done);
-        let bad = ["Undefined Behavior", "Data race", "data race", "memory leaked", "deadlock", "MISMATCH"].iter().any(|p| se.contains(p) || so.contains(p));
-        extra.insert("miri".into(), json!({"seeds_requested": seeds, "seeds_completed": done, "exit": code, "stderr_tail": if code == Some(0) { String::new() } else { tail(&se, 30) }}));
-        if bad {
-            let first = se.lines().find(|l| l.contains("error:")).unwrap_or("").to_string();
-            sink.violate("C18", "miri_report", format!("C18|miri|{}", first), format!("Miri reported: {} ...{}", first, tail(&se, 20).replace('\n', " / ")), json!({"kind": "threads", "observer": "miri", "report": tail(&se, 80)}));
-        } else if code != Some(0) {
-            inconclusive.push(format!("Miri ended with {:?} without a race/UB/leak report: {}", code, tail(&se, 5).replace('\n', " / ")));
+        let mut miri_obs = vec![];
+        for (label, force_rep, seeds) in [("setup_and_turns_root", "0", cfg.n(8, 64)), ("third_repetition_root_step3", "1", cfg.n(4, 32))] {
+            let mut c = Command::new("cargo");
+            c.args(["+nightly", "miri", "run", "--offline", "--", "1", "3", "1", &cfg.seed.to_string(), "2", "40", "1", force_rep]).current_dir(vd.join("sanit")).env("MIRIFLAGS", format!("-Zmiri-many-seeds=0..{}", seeds)).env("CARGO_TARGET_DIR", target.join("sanit-miri")).env("CARGO_NET_OFFLINE", "true").env("CARGO_TERM_COLOR", "never").env_remove("RUSTFLAGS");
+            let (code, so, se) = run_cmd(c);
+            let done = so.lines().filter(|l| l.starts_with("c18bare ")).count() as u64;
+            sink.add("miri_seeds_completed", done);
+            sink.add(&format!("miri_seeds_{}", label), done);
+            let bad = ["Undefined Behavior", "Data race", "data race", "memory leaked", "deadlock", "MISMATCH"].iter().any(|p| se.contains(p) || so.contains(p));
+            miri_obs.push(json!({"root": label, "seeds_requested": seeds, "seeds_completed": done, "exit": code, "stderr_tail": if code == Some(0) { String::new() } else { tail(&se, 30) }}));
+            if bad {
+                let first = se.lines().find(|l| l.contains("error:")).unwrap_or("").to_string();
+                sink.violate("C18", "miri_report", format!("C18|miri|{}", first), format!("Miri ({}) reported: {} ...{}", label, first, tail(&se, 20).replace('\n', " / ")), json!({"kind": "threads", "observer": "miri", "root": label, "report": tail(&se, 80)}));
+            } else if code != Some(0) {
+                inconclusive.push(format!("Miri ({}) ended with {:?} without a race/UB/leak report: {}", label, code, tail(&se, 5).replace('\n', " / ")));
+            }
         }
+        extra.insert("miri".into(), json!(miri_obs));
     }
 
     let rep = Report {
         evaluations_counter: "nodes_compared",
         rule: "W12. Observer 1 (build-time): a probe crate requiring Send + Sync of 13 public types (and Arc/Vec/spawn uses) must compile. Observer 2: roots after setup + 0..40 turns, mid-turn roots, W3 roots with shared histories, setup-phase roots, scripted third-repetition roots at step 3 and W5b roots where every turn-ender is withheld (several history lookups with different answers per query; these roots are additionally queried 40 times per thread) are expanded to depth 1-2 by 4..32 threads (shared via Arc, borrowed with concurrent clone/drop threads, or moved clones) in permuted orders with seeded yields/spins between engine calls; every thread's (path, fingerprint) vector must equal the sequential expansion and a deep fingerprint of the root (incl. every history entry) must be unchanged; lists sharing tails of up to 180 000 nodes are dropped from 4..15 threads, and 2-4 threads drop the last handles of one list at the same instant (spin barrier) while drop probes measure the stack span over which the nodes are freed. Observer 3: the same bare workload (no shared monitor state) under ThreadSanitizer (-Zbuild-std) and under Miri -Zmiri-many-seeds. distinct_nontrivial = distinct thread completion orders observed natively.".into(),
         assumptions: vec!["'under every interleaving' is sampled (rounds, TSan runs, Miri seeds), not enumerated".into(), "the Send + Sync half is decided by the compiler on a probe crate (a build-time observation)".into(), "TSan/Miri see only the code the bare workload reaches (all public queries + take_action + clone/drop)".into()],
-        floors: vec![floor("rounds", 5000, 150_000), floor("nodes_compared", 500_000, 20_000_000), floor("distinct_thread_completion_orders", 500, 5000), floor("tsan_runs", 12, 200), floor("tsan_nodes_compared", 10_000, 100_000), floor("miri_seeds_completed", 8, 64), floor("autotrait_probe_builds", 1, 1), floor("longest_shared_history", 20, 30), floor("rounds_root_third_repetition_at_step3", 500, 15_000), floor("rounds_root_saturated_all_withheld", 400, 12_000), floor("simultaneous_last_owner_drop_rounds", 500, 5000)],
+        floors: vec![floor("rounds", 5000, 150_000), floor("nodes_compared", 500_000, 20_000_000), floor("distinct_thread_completion_orders", 500, 5000), floor("tsan_runs", 12, 200), floor("tsan_nodes_compared", 10_000, 100_000), floor("miri_seeds_completed", 12, 96), floor("autotrait_probe_builds", 1, 1), floor("longest_shared_history", 20, 30), floor("rounds_root_third_repetition_at_step3", 500, 15_000), floor("rounds_root_saturated_all_withheld", 400, 12_000), floor("simultaneous_last_owner_drop_rounds", 500, 5000)],
         level: "exploration",
         exhaustive: None,
         extra,
